@@ -4,14 +4,17 @@
 package p2p
 
 import (
+	"context"
 	"crypto/cipher"
 	"crypto/ecdsa"
 	"hash"
 	"io"
 	"net"
 
+	"github.com/btcsuite/btcd/btcec/v2"
 	"gitlab.com/aquachain/aquachain/crypto/sha3"
 	"gitlab.com/aquachain/aquachain/p2p/discover"
+	"gitlab.com/aquachain/aquachain/rlp"
 )
 
 const (
@@ -113,4 +116,53 @@ func VerifRunPeer(fd net.Conn, aesKey, macKey []byte, egress, ingress hash.Hash,
 	srv.runPeer(p)
 	pd := <-srv.delpeer
 	return pd.requested, pd.err
+}
+
+// ---- real Server: connection setup against silent / stalling / hostile remotes ----
+
+const (
+	VerifHandshakeTimeout = handshakeTimeout
+	VerifFrameReadTimeout = frameReadTimeout
+)
+
+// VerifNewServer starts a real Server (no discovery, no listener, no dialing) with one sub-protocol whose handler
+// drains messages.
+func VerifNewServer(key *btcec.PrivateKey, protoLen uint64) (*Server, error) {
+	NoCountdown = true
+	srv := &Server{Config: &Config{Name: "verif", MaxPeers: 50, NoDiscovery: true, NoDial: true, PrivateKey: key, ChainId: 222,
+		Protocols: []Protocol{{Name: "vrf", Version: 1, Length: protoLen, Run: func(p *Peer, rw MsgReadWriter) error {
+			for {
+				m, err := rw.ReadMsg()
+				if err != nil {
+					return err
+				}
+				m.Discard()
+			}
+		}}}}}
+	if err := srv.Start(context.Background()); err != nil {
+		return nil, err
+	}
+	return srv, nil
+}
+
+// VerifSetupConn is Server.SetupConn for an inbound connection (dial == nil) or a dialed one.
+func VerifSetupConn(srv *Server, fd net.Conn, dial *discover.Node) error {
+	if dial == nil {
+		return srv.SetupConn(fd, inboundConn, nil)
+	}
+	return srv.SetupConn(fd, dynDialedConn, dial)
+}
+
+// VerifDoEncHandshake is the real rlpx.doEncHandshake of the listening side (deadline set by newRLPX).
+func VerifDoEncHandshake(fd net.Conn, prv *ecdsa.PrivateKey) (discover.NodeID, error) {
+	return newRLPX(fd).(*rlpx).doEncHandshake(prv, nil)
+}
+
+// VerifProtoHandshakePayload encodes a protocol handshake as the real senders do.
+func VerifProtoHandshakePayload(version uint64, name string, caps []Cap, id discover.NodeID) []byte {
+	b, err := rlp.EncodeToBytes(&protoHandshake{Version: version, Name: name, Caps: caps, ID: id})
+	if err != nil {
+		panic(err)
+	}
+	return b
 }
